@@ -30,3 +30,61 @@ Definition c21_chk (p : prog) (sp : hspec) (ordered : list bool) (h : list (list
            (impl_outs : list (list val)) (impl_obs : list N) : N :=
   verdict (run_agree false p (map ext_of h) ordered impl_outs impl_obs)
           (outs_eqb ordered impl_outs (spec_outs sp h (length impl_outs))).
+
+(* ------------------------------------------------------------------ C24 *)
+
+(* items a sink recorded at tick t *)
+Definition at_tick (t : N) (l : list val) : list val :=
+  map vsnd (filter (fun x => N.eqb (vnum (vfst x)) t) l).
+
+Definition nsum (l : list N) : N := fold_left N.add l 0.
+
+(* a defer_tick / defer_tick_lazy between the tap [before] and the tap [after] *)
+Record defer := { d_before : nat; d_after : nat; d_lazy : bool }.
+
+(* everything tapped before the defer in tick t is tapped after it in tick t+1 (if that tick ran)
+   and nothing else ever is *)
+Definition shift_ok (ordered : list bool) (total : N) (outs : list (list val)) (d : defer) : bool :=
+  out_eqb (nth (d_before d) ordered false && nth (d_after d) ordered false)
+    (nth (d_after d) outs [])
+    (map (fun x => VP (VN (vnum (vfst x) + 1)) (vsnd x))
+         (filter (fun x => vnum (vfst x) + 1 <? total) (nth (d_before d) outs []))).
+
+(* non-lazy deferred data pending at the end of tick t *)
+Definition pending (defers : list defer) (outs : list (list val)) (t : N) : bool :=
+  existsb (fun d => negb (d_lazy d) &&
+                    match at_tick t (nth (d_before d) outs []) with [] => false | _ => true end) defers.
+
+Fixpoint expect_run (fuel : nat) (defers : list defer) (outs : list (list val)) (t : N) : N :=
+  match fuel with
+  | O => 0
+  | S f => if pending defers outs t then 1 + expect_run f defers outs (t + 1) else 1
+  end.
+
+Fixpoint avail_ok (defers : list defer) (outs : list (list val)) (start : N) (obs : list N) : bool :=
+  match obs with
+  | [] => true
+  | n :: r => N.eqb n (expect_run 200 defers outs start) && avail_ok defers outs (start + n) r
+  end.
+
+Fixpoint count_from (n : N) (l : list N) : bool :=
+  match l with [] => true | x :: r => N.eqb x n && count_from (n + 1) r end.
+
+(* a stateful operator between tap 0 and sink k: its outputs follow the history spec over what
+   tap 0 recorded tick by tick ('tick state reset each tick, 'static state carried) *)
+Definition state_ok (total : N) (outs : list (list val)) (ordered : list bool) (chk : nat * hspec) : bool :=
+  let h := map (fun t => [at_tick (N.of_nat t) (nth 0 outs [])]) (seq 0 (N.to_nat total)) in
+  out_eqb (nth (fst chk) ordered false) (nth (fst chk) outs []) (nth 0 (spec_outs (snd chk) h 1) []).
+
+Definition c24_holds (avail : bool) (defers : list defer) (checks : list (nat * hspec))
+           (ordered : list bool) (outs : list (list val)) (obs : list N) : bool :=
+  let total := if avail then nsum obs else N.of_nat (length obs) in
+  (if avail then avail_ok defers outs 0 obs else count_from 1 obs) &&
+  forallb (shift_ok ordered total outs) defers &&
+  forallb (state_ok total outs ordered) checks.
+
+Definition c24_chk (avail : bool) (p : prog) (defers : list defer) (checks : list (nat * hspec))
+           (ordered : list bool) (h : list (list (list val)))
+           (impl_outs : list (list val)) (impl_obs : list N) : N :=
+  verdict (run_agree avail p (map ext_of h) ordered impl_outs impl_obs)
+          (c24_holds avail defers checks ordered impl_outs impl_obs).
